@@ -55,7 +55,7 @@ def main():
         pass
     files = {"out_A": read_lines(out, header, rows, True)}
     obs = {"outs": ["out_A"], "subjects": {"out_A": sorted(set(names))}, "prior": [],
-           "init": {"out_A": {"ex": False, "ls": []}}, "ev": [{"files": files, "snaps": snap, "failed": 0}], "ends": [1]}
+           "init": {"out_A": {"ex": False, "ls": []}}, "ev": [{"files": files, "snaps": snap, "failed": 0}], "ends": [1], "foreign": False, "ctorfailed": False}
     _real_stdout.write(json.dumps({"mode": mode, "names": names, "obs": obs}) + "\n")
     _real_stdout.flush()
 
